@@ -194,6 +194,95 @@ func TestSeeds(t *testing.T) {
 	}
 }
 
+// SeqCase is a sequence of lines whose accepted records are marshalled one
+// after the other while all returned texts are kept.
+type SeqCase struct {
+	Lines []vp.S `json:"lines"`
+}
+
+// checkSeq: the text returned by MarshalText belongs to the caller; later
+// MarshalText calls (for any record) must not change it, and it must still
+// re-parse to its record afterwards.
+func checkSeq(c SeqCase) error {
+	type kept struct {
+		rec  hostsfile.Record
+		text []byte
+		copy []byte
+	}
+	var all []kept
+	long := 0
+	for _, l := range c.Lines {
+		rec := hostsfile.Record{}
+		if err := rec.UnmarshalText([]byte(l)); err != nil {
+			continue
+		}
+		text, err := rec.MarshalText()
+		if err != nil {
+			return fmt.Errorf("MarshalText failed: %v", err)
+		}
+		if len(text) > 128 {
+			long++
+		}
+		all = append(all, kept{rec: rec, text: text, copy: bytes.Clone(text)})
+	}
+	for i, k := range all {
+		if !bytes.Equal(k.text, k.copy) {
+			return fmt.Errorf("the text returned by MarshalText for record #%d (%v %q) was %s when returned and reads %s after %d later MarshalText calls", i, k.rec.Addr, k.rec.Names, vp.Q(string(k.copy)), vp.Q(string(k.text)), len(all)-1-i)
+		}
+		back := hostsfile.Record{}
+		if err := back.UnmarshalText(k.text); err != nil || back.Addr != k.rec.Addr || !slices.Equal(back.Names, k.rec.Names) {
+			return fmt.Errorf("record #%d no longer re-parses from its marshalled text: %v %q -> %v %q (%v)", i, k.rec.Addr, k.rec.Names, back.Addr, back.Names, err)
+		}
+	}
+	if len(all) >= 2 {
+		vp.Class("seq:>=2-records-kept")
+		if long > 0 {
+			vp.Class("seq:with-a-line-over-128-bytes")
+			vp.NonTrivialStr("c07.seq", fmt.Sprint(c.Lines))
+			vp.Sample("seq", c)
+		}
+	}
+	return nil
+}
+
+var seqProp = vp.Register(vp.Prop[SeqCase]{
+	Kind: "c07.seq", Base: 15000,
+	Gen: func(t *rapid.T) SeqCase {
+		n := rapid.IntRange(2, 8).Draw(t, "n")
+		c := SeqCase{}
+		for i := 0; i < n; i++ {
+			switch rapid.IntRange(0, 3).Draw(t, "kind") {
+			case 0:
+				// A long accepted line (above typical pooled buffer sizes).
+				k := rapid.IntRange(2, 12).Draw(t, "names")
+				lab := strings.Repeat(rapid.SampledFrom([]string{"a", "b", "xy"}).Draw(t, "ch"), rapid.IntRange(20, 63).Draw(t, "lablen"))
+				if len(lab) > 63 {
+					lab = lab[:63]
+				}
+				addr := rapid.SampledFrom([]string{"fe80::1%eth0", "1.2.3.4", "2001:db8::1", "0.0.0.0"}).Draw(t, "addr")
+				c.Lines = append(c.Lines, vp.S(addr+strings.Repeat(" "+lab+".lan", k)))
+			case 1:
+				c.Lines = append(c.Lines, vp.S(rapid.SampledFrom([]string{"0.0.0.0 ads.example.org tracker.example.org", "127.0.0.1 localhost", "::1 ip6-localhost ip6-loopback", "10.0.0.1 a"}).Draw(t, "short")))
+			default:
+				c.Lines = append(c.Lines, vp.S(gen.HostsLine().Draw(t, "line")))
+			}
+		}
+		return c
+	},
+	Check: checkSeq,
+})
+
+func TestSeq(t *testing.T) { vp.Run(t, seqProp) }
+
+// TestConcurrent (variant "conc", -race): the same checks from 8 goroutines.
+func TestConcurrent(t *testing.T) {
+	if vp.Variant() != "conc" {
+		t.Skip("runs in the conc variant (-race)")
+	}
+	vp.RunConcurrent(t, seqProp, 200, 16, 8)
+	vp.RunConcurrent(t, lineProp, 150, 64, 8)
+}
+
 func TestLine(t *testing.T)   { vp.Run(t, lineProp) }
 func TestReplay(t *testing.T) { vp.Replay(t) }
 
